@@ -67,19 +67,99 @@ def typedefs(lb_ia):
     return out
 
 
-def register_dtype(env, path, tname, lb_ia, ro=False):
-    """register the components of a derived-type object reachable through designator ``path`` in env"""
+def register_dtype(env, path, tname, lb_ia, ro=False, root=None):
+    """
+    register the components of a derived-type object reachable through designator ``path`` in env;
+    ``root``: the underlying object when ``path`` starts with an associate name (see root_of)
+    """
     for (cn, ct, cd) in TYPES[tname]:
         p = [list(x) for x in path] + [[cn, None]]
         key = '%'.join(x[0] for x in p)
+        croot = None if root is None else root + '%' + cn
         if ct.startswith('type:'):
             env.vars[key] = {'type': ct, 'dims': None, 'path': p, 'ro': ro, 'dt': True}
-            register_dtype(env, p, ct[5:], lb_ia, ro)
+            register_dtype(env, p, ct[5:], lb_ia, ro, croot)
         else:
             dims = [list(x) for x in cd] if cd else None
             if tname == 'tin' and cn == 'ia':
                 dims = [[lb_ia, lb_ia + 2]]
             env.vars[key] = {'type': ct, 'dims': dims, 'path': p, 'ro': ro}
+        if croot is not None:
+            env.vars[key]['root'] = croot
+
+
+# ------------------------------------------------------------------ aliasing through associate names
+# gfortran 12 does not see that an associate name and its selector (or two associate names of one object) overlap:
+# `z(1:2) = abs(z(1:2)) - a(0:1)` inside `associate (z => a)` is compiled without the temporary the standard
+# requires, so the ORIGINAL program would be miscompiled by the reference compiler (checked by hand). Statements
+# that write an array-valued designator and mention the same underlying object under another name, and calls that
+# pass overlapping objects by reference, are therefore never generated (counted as avoided 'ref:...').
+def root_of(env, d):
+    """underlying object 'name[%comp...]' of designator ``d`` (None if unknown, e.g. a value selector)"""
+    names = [part[0] for part in d[1]]
+    for k in range(len(names), 0, -1):
+        key = '%'.join(names[:k])
+        v = env.vars.get(key)
+        if v is not None:
+            if v.get('value') or ('root' in v and v['root'] is None):
+                return None
+            base = v.get('root', key)
+            return '%'.join([base] + names[k:])
+    return names[0]
+
+
+def roots_overlap(r1, r2):
+    return r1 is not None and r2 is not None and (r1 == r2 or r1.startswith(r2 + '%') or r2.startswith(r1 + '%'))
+
+
+def designators(x, acc):
+    if isinstance(x, list):
+        if x and x[0] == 'd' and len(x) == 2 and isinstance(x[1], list):
+            acc.append(x)
+            for part in x[1]:
+                for sub in part[1] or []:
+                    designators(sub, acc)
+            return acc
+        for y in x:
+            designators(y, acc)
+    elif isinstance(x, dict):
+        for y in x.values():
+            designators(y, acc)
+    return acc
+
+
+def array_valued(env, d):
+    if any(isinstance(sub, list) and sub and sub[0] == 'rng' for part in d[1] for sub in (part[1] or [])):
+        return True
+    v = env.vars.get('%'.join(part[0] for part in d[1]))
+    return bool(v and v.get('dims') and d[1][-1][1] is None)
+
+
+def alias_overlap(env, stmt):
+    """True if ``stmt`` (recursively) relies on the compiler seeing an overlap between differently named objects"""
+    from .model import walk_stmts
+    for _, s in walk_stmts([stmt]):
+        if s[0] == 'assign':
+            if array_valued(env, s[1]):
+                rw = root_of(env, s[1])
+                for d in designators(s[2], []) + designators([sub for part in s[1][1] for sub in (part[1] or [])], []):
+                    if d[1][0][0] != s[1][1][0][0] and roots_overlap(rw, root_of(env, d)):
+                        return True
+        elif s[0] in ('where', 'where1'):
+            written = [t[1] for _, t in walk_stmts([s]) if t[0] == 'assign']
+            for w in written:
+                rw = root_of(env, w)
+                for d in designators(s, []):
+                    if d[1][0][0] != w[1][0][0] and roots_overlap(rw, root_of(env, d)):
+                        return True
+        elif s[0] == 'call':
+            refs = [x for x in s[2] if isinstance(x, list) and x and x[0] == 'd']
+            roots = [root_of(env, d) for d in refs]
+            for i in range(len(roots)):
+                for j in range(i + 1, len(roots)):
+                    if roots_overlap(roots[i], roots[j]):
+                        return True
+    return False
 
 
 def clone_env(env):
@@ -219,7 +299,7 @@ class A:
 def sel_env(env, a):
     """env view used for subscripts inside selectors: only literals and admissible loop variables"""
     e = clone_env(env)
-    if a.merge_safe and a.adepth >= 1 and a.top_loops is not None:
+    if a.merge_safe and a.adepth >= 1 and a.top_loops is not None and 'merge-loopdep' not in a.allow:
         e.active_loops = {k: v for k, v in env.active_loops.items() if k in a.top_loops}
         if len(e.active_loops) < len(env.active_loops):
             a.avoided.append('merge-loopdep')
@@ -254,7 +334,7 @@ def sel_subscripts(g, se, name, a=None):
         # an associate name of an enclosing block that denotes n (3 <= n <= NMAX)
         if lb <= se.nval_range[0] and (d[1] == 'n' or (isinstance(d[1], int) and d[1] >= se.nval_range[1])):
             for nm in aliases:
-                choices += ['alias:' + nm] * 2
+                choices += ['alias:' + nm] * 3
         c = g.pick(choices)
         if c == 'lit':
             subs.append(lit(g.i(max(lb, 0), ubmin)))
@@ -282,7 +362,7 @@ def pick_selector(g, env, a):
     names = [n for n, v in env.vars.items() if not v.get('fuel')]
     if not names:
         return None
-    kinds = ['scalar'] * 3 + ['elem'] * 3 + ['whole'] * 2 + ['section'] * 4 + ['alias-n']
+    kinds = ['scalar'] * 3 + ['elem'] * 3 + ['whole'] * 2 + ['section'] * 4 + ['alias-n'] * 2
     if not (a.merge_safe and a.adepth >= 1):
         # (do_merge_associates raises AttributeError on value selectors of nested blocks: expr.scope -> rejected_by_loki)
         kinds += ['expr']
@@ -389,8 +469,8 @@ def pick_selector(g, env, a):
             kk = g.i(2, kmax) if kmax >= 2 else kmax
             subs.append(['rng', None if f == 'to-k' else lit(1), lit(kk), None])
             dims.append([1, kk])
-            if d[1] == 'n' or kk < d[1]:
-                partial = True
+            if d[1] == 'n' or kk < d[1] or lb != 1:
+                partial = True      # (a section 1:k of a dimension lb:ub with lb < 1 is partial, too)
         elif f == 'full-lb':
             subs.append(['rng', None, None, None])
             dims.append([1, (ubmin - lb + 1) if d[1] != 'n' else 3])
@@ -469,7 +549,7 @@ def gen_assoc_block(g, env, depth, nstmts, a, must_nest=0):
     if not pairs:
         return None
     parent_bid = a.block_stack[-1] if a.block_stack else None
-    if a.merge_safe and parent_bid is not None:
+    if a.merge_safe and parent_bid is not None and 'merge-empties-inner' not in a.allow:
         # do_merge_associates moves every association that does not depend on the direct parent's names; a nested
         # block must keep at least one or an invalid 'ASSOCIATE ()' is left behind (known finding merge-empties-inner)
         def base(sel):
@@ -493,12 +573,14 @@ def gen_assoc_block(g, env, depth, nstmts, a, must_nest=0):
             a.feats.add('sel:assoc-of-assoc')
     a.nblocks += 1
     bid = a.nblocks
+    sel_of = dict((nm, sel) for nm, sel in pairs)
     for name, ent in new.items():
         ent['ablock'] = bid
+        ent['root'] = root_of(env, sel_of[name]) if sel_of[name][0] == 'd' else None
         drop_name(child, name)
         child.vars[name] = ent
         if ent.get('dt'):
-            register_dtype(child, [[name, None]], ent['type'][5:], a.lb_ia, ent.get('ro', False))
+            register_dtype(child, [[name, None]], ent['type'][5:], a.lb_ia, ent.get('ro', False), ent['root'])
     a.adepth += 1
     a.block_stack.append(bid)
     if a.certain:
@@ -528,7 +610,7 @@ def gen_do(g, env, depth, nstmts, a):
         return None
     lo = g.i(1, 3)
     trip = g.i(0, 3) if g.chance(10) else g.i(1, 3)
-    use_n = lo == 1 and g.chance(30)
+    use_n = lo == 1 and g.chance(40)
     if use_n:
         env.active_loops[lv] = (1, 'n')
         hi_e = var('n')
@@ -581,12 +663,19 @@ def gen_stmt(g, env, depth, nstmts, a, in_loop=False):
     elif c == 'base':
         # any other statement kind of the base generator (select, where, one-line if, ...), without associates inside
         sub = dict(g.p, max_depth=min(g.p['max_depth'], depth + 1))
-        return B.gen_stmt(B.G(g.draw, sub), env, depth, 2, in_loop=False)
+        return [no_alias_overlap(env, a, st_) for st_ in B.gen_stmt(B.G(g.draw, sub), env, depth, 2, in_loop=False)]
     if r is None:
         r = B.gen_assign(g, env)
     if r is None:
         r = ['comment', ' nothing to assign']
-    return [r]
+    return [no_alias_overlap(env, a, r)]
+
+
+def no_alias_overlap(env, a, stmt):
+    if a.adepth and stmt[0] not in ('assoc', 'do', 'if') and alias_overlap(env, stmt):
+        a.avoided.append('ref:gfortran-misses-overlap-through-associate-name')
+        return ['comment', ' (statement with overlapping aliases not generated)']
+    return stmt
 
 
 def gen_body(g, env, depth, nstmts, a, in_loop=False):
